@@ -230,6 +230,11 @@ def thumbprint_members(ctx, rid):
             got = table.get((v, "thumb"), {})
             ctx.require(rid, set(got) == members, "%s:%s" % (eb.file, eb.line), "%s thumbprint members = %s (RFC 7638 required members %s)" % (v, sorted(got), sorted(members)),
                         [KEYS + "::jwk_public_key_thumbprint", "thumbprint-members", v])
+            # the constant members are part of the digest input: a wrong curve name is a wrong thumbprint for that key type only
+            for k, val in (("kty", kty), ("crv", crv)):
+                if val is not None and k in got:
+                    ctx.require(rid, got[k] == val, "%s:%s" % (eb.file, eb.line), "%s thumbprint: \"%s\" = %s (found %r)" % (v, k, val, got[k]),
+                                [KEYS + "::jwk_public_key_thumbprint", "thumbprint-const", v, k])
         return
     req = {"get_rsa_jwk": {"kty", "e", "n"}, "get_ecdsa_jwk": {"kty", "crv", "x", "y"}, "get_eddsa_jwk": {"kty", "crv", "x"}}
     for fn, members in req.items():
